@@ -29,6 +29,10 @@ REQUIRED_THEOREMS = [
     "TapkeeVerif.Knn.CoverQuery.batchCreate_fuel_suffices",
     "TapkeeVerif.Knn.CoverQuery.batchCreate_fuel_mono",
     "TapkeeVerif.Knn.CoverQuery.batchCreate_total_wf",
+    "TapkeeVerif.Knn.bruteKnn_admissible",
+    "TapkeeVerif.Knn.coverSelect_admissible",
+    "TapkeeVerif.Knn.vptree_build_admissible",
+    "TapkeeVerif.Knn.popMaxFirst_admissible",
 ]
 METHODS = ["brute", "vptree", "covertree"]
 
@@ -56,8 +60,20 @@ def _dumpable(line):
     return " method=covertree " in line and " metric=L2 " not in line
 
 
+DUMP_NMAX = 80      # every generated family stops at N = 64; only the large-N leg (N >= 300) is above
+
+
+def _npts(line):
+    for t in line.split():
+        if t.startswith(("pts=", "m=", "km=")):
+            return t.count(";") + 1
+    return 0
+
+
 def _run_chunk(ctx, binary, lines, brief):
-    lines = [l + " dump=1" if _dumpable(l) and len(l) < 6000 else l for l in lines]
+    # no cap on the length of the case line any more (the driver has none): the tree is dumped for every cover-tree case
+    # except metric=L2 (oracle-only by design) and N > DUMP_NMAX (large-N leg: implementation against the O(N^2) spec)
+    lines = [l + " dump=1" if _dumpable(l) and _npts(l) <= DUMP_NMAX else l for l in lines]
     impl = ctx.run_impl_cases(binary, lines, timeout=1800)
     dl = []
     for l, io in zip(lines, impl):
@@ -140,6 +156,9 @@ def classify(c, io, mf):
     if method == "covertree" and mf.get("cq") != "ok":
         return ("broken", "cover-query-certificate", "cover-tree query returned a candidate set different from {j | d(i,j) <= k-th} (%s)"
                 % mf.get("cq"))
+    if method == "covertree" and str(mf.get("wf", "")).startswith("unparsed-tree"):
+        return ("broken", "cover-tree-dump-malformed", "the dumped cover tree is structurally malformed (record count / child counts "
+                "do not form one preorder tree): harness/driver protocol broken")
     if method == "covertree" and str(mf.get("wf", "")).startswith("unparsed"):
         mf["wf-unparsed"] = "1"      # protocol limitation of the dump (non-integer distance), never a verdict; counted in the evidence
     elif method == "covertree" and mf.get("wf") not in (None, "1"):
@@ -207,6 +226,23 @@ def judge(ctx, binary, cases, label, brief=False):
         ctx.stat("cb:" + c.get("cb", "plain"))
         ctx.stat("N<=8" if n <= 8 else "N<=64" if n <= 64 else "N<=512" if n <= 512 else "N>512")
         ctx.cov["traces_validated_against_impl"] += 1
+        if c["method"] == "covertree" and "wf" not in mf and not io.startswith("abort:"):
+            ctx.stat("cover-cases-not-dumped:" + ("metric=L2(oracle-only)" if c.get("metric") == "L2" else
+                                                  "N>%d(large-N leg)" % DUMP_NMAX if n > DUMP_NMAX else "other"))
+        if io.startswith("ids=") and " ev=" in io:
+            # distance / kernel evaluations and vantage draws the real code made (implementation-side diagnostic)
+            try:
+                ev = [int(x) for x in io.rsplit(" ev=", 1)[1].split()[0].split(",")]
+                d = ctx.extra.setdefault("callback_evaluations", {})
+                key = c["method"] + ":" + c.get("cb", "plain")
+                e = d.setdefault(key, {"cases": 0, "samples": 0, "distance": 0, "kernel": 0, "vantage_draws": 0})
+                e["cases"] += 1
+                e["samples"] += n
+                e["distance"] += ev[0]
+                e["kernel"] += ev[1]
+                e["vantage_draws"] += ev[2]
+            except (ValueError, IndexError):
+                ctx.stat("ev-unparsed")
         if mf.get("alt"):
             ctx.stat("cases-with-coincident-samples(>=k+1)")
         if mf.get("ties") not in (None, "0"):
@@ -475,6 +511,14 @@ def correspond(ctx):
         judge(ctx, binary, [cc], "large-N", brief=True)
     if not quick:
         isomap_leg(ctx, 400, "c02")
+    dist = ctx.extra.get("distribution", {})
+    if not dist.get("cover-trees-certified(wfTree)+model-query-run") or not dist.get("cover-trees-compared-with-batchCreate-model:identical"):
+        ctx.broken("cover-certificate-never-run", "correspondence c02_knn (tree dump / wfTree / batchCreate / query model)",
+                   "no cover tree was dumped, certified and compared with the Lean models in this run (driver stopped emitting "
+                   "wf= / bt=?)")
+    if dist.get("cover-cases-not-dumped:other"):
+        ctx.broken("cover-cases-not-dumped", "correspondence c02_knn (tree dump)", "%d cover-tree cases outside the two declared "
+                   "exclusions (metric=L2, N > %d) were not dumped" % (dist["cover-cases-not-dumped:other"], DUMP_NMAX))
     ctx.cov["rule"] = ("exact-mode sample sets (integer lattices incl. the 7x7 grid, duplicated samples, clusters with 10^6 scale "
                        "ratio, collinear sets whose diameter is a double next to a power of 1.3 (cover-tree scale boundary), dyadic generic data in 1..50 dims, tree/path/ultrametric integer matrices, powers-of-two "
                        "ultrametrics up to 2^60, PSD integer kernels with perfect-square induced distances) x {Brute, VpTree, "
